@@ -1604,6 +1604,9 @@ fn main() {
          plus three families in both directions: deep nesting (two documents with a string at EVERY nesting depth 1..120 resp. 1..1100 in arrays, dictionaries, both alternating and a stream dictionary), \
          the shapes of the trailer's /ID entry (literal strings, empty first string, one element; for revisions 5/6 also absent, empty array, integer or name as first element, a string instead of an array), \
          Crypt filter parameters in the array form of /DecodeParms and Crypt filters without /DecodeParms; \
+         plus the extra-crypt-filter family (both directions and K): configurations whose CF dictionary holds MORE crypt filters than StmF / StrF name (one extra per CFM of the version, names sorting before / between / after the default ones; V4 x {RC4,AESV2,Identity}^2, revision 5 and V5 x {AESV3,Identity}^2; B also with StmF / StrF absent) x documents whose streams carry Crypt overrides naming EVERY CF entry, /Identity and nothing, in the dictionary form, the one-element array form and the array form next to a second filter; the dictionary lopdf writes must define every registered filter, the kept state must re-encode them all; \
+         plus the key-name family: strings of 16..33 bytes in literal AND hexadecimal format under 34 key names that look special (Contents, ID, O, U, OE, UE, Perms, Cert, Filter, Encrypt, CF, ...) in ordinary dictionaries - top-level, nested, in arrays, in stream dictionaries, in dictionaries typed /XRef, /ObjStm, /Encrypt and in dictionaries shaped like an encryption dictionary (nested and top-level) - all of which both sides must process; and real signature dictionaries (/Type /Sig or /DocTimeStamp + /ByteRange + hexadecimal /Contents), whose Contents the reference leaves alone (ISO 32000-2 7.6.2) while it processes every other string in them; in direction B the encryption dictionary takes the lowest free object number, i.e. sits in front of objects that must still be decrypted when the numbering has gaps; \
+         plus the long-password family (revisions 5, 6, both directions): 11 pairs of passwords of 126..180 UTF-8 bytes (all-Cyrillic, all-CJK, all 4-byte, mixed scripts, cut exactly on a character boundary, only one password long, SASLprep shrinking below / expanding beyond 127 bytes) next to the three pairs with a character across byte 127; \
          plus direction K: {protected by the reference, protected by lopdf} x configuration x password pair x permission word x {opened by lopdf as user, as owner, by the loader's empty password} x {in memory, through writer+loader}: the state lopdf keeps is re-encoded and used to encrypt again, the reference compares every field with the first protection and opens the result with both passwords; \
          a failing direction-B case is executed three times; a failing direction-A case keeps the document lopdf wrote and the reference judges that artefact three times",
     );
@@ -1614,6 +1617,8 @@ fn main() {
     run.assume("revisions <= 4 are combined only with an /ID whose first element is a string (Algorithm 2 hashes it; ISO 32000-1 requires /ID in an encrypted document); revisions 5 and 6 never use the identifier and are combined with every shape");
     run.assume("Document::encryption_state is documented as 'the parameters that were used to decrypt this document if the document has been decrypted'; direction K requires it to re-encode to the first protection's parameters. Whether the loader decrypts with the empty password is not prescribed: direction-K cases that presuppose the other behaviour are counted as not applicable");
     run.assume("lopdf's IVs, salts and paddings are random: ciphertext is never compared; O (R2-4), U (R2), U[0..16] (R3-4), P, V, R, Length, CFM, EncryptMetadata and the file key are compared for equality, R5/R6 U, O, UE, OE, Perms are validated");
+    run.assume("ISO 32000-2 7.6.2: the hexadecimal string that is the Contents entry of a signature dictionary is not encrypted. The reference applies this to the narrow shape every reading agrees on (/Type /Sig or /DocTimeStamp, a /ByteRange array, a hexadecimal Contents); dictionaries that are signature dictionaries under some readings only (no /Type, no /ByteRange, literal format) are not in C06's menus (C05 has them, accepting both treatments). A key named Contents anywhere else is an ordinary key");
+    run.assume("a stream whose Crypt filter names a crypt filter that CF does not define is outside the standard (a reader cannot decrypt it): such overrides are exercised by C05 only");
     run.assume("documents that combine two catalogued deviations (strings in stream dictionaries together with a non-conforming Identity spelling) are left out so that every failing item is explained by exactly one finding");
     let mut list = cases(&run);
     let (deep, idf, kept) = (deep_cases(&run), id_cases(&run), kept_cases(&run));
@@ -1804,9 +1809,9 @@ fn main() {
     run.set(
         "bounds",
         json!(if run.thorough {
-            "thorough: R<=5 - every configuration x document x password pair x {permission menu of 10 x identifier length {16,0,32} x (B) all spellings, in memory and through writer+loader; (B) all 3 salt/IV patterns with permissions=all and identifier length 16, one pattern in rotation elsewhere}, plus the remaining 246 conforming permission words x identifier length 16 on the page document; R6 - every configuration x document x password pair with permissions=all (in memory and through writer+loader) plus the permission menu on the page document; deep-nesting family: every configuration x three password pairs; file-identifier family: every password pair; direction K: all 256 conforming permission words with the pair 'distinct' on the page document (R6: the menu of 10)"
+            "thorough: R<=5 - every configuration x document x password pair x {permission menu of 10 x identifier length {16,0,32} x (B) all spellings, in memory and through writer+loader; (B) all 3 salt/IV patterns with permissions=all and identifier length 16, one pattern in rotation elsewhere}, plus the remaining 246 conforming permission words x identifier length 16 on the page document; R6 - every configuration x document x password pair with permissions=all (in memory and through writer+loader) plus the permission menu on the page document; deep-nesting family: every configuration x three password pairs; file-identifier family: every password pair; extra-crypt-filter, key-name and long-password families: every password pair (R6: three pairs; all long pairs); direction K: all 256 conforming permission words with the pair 'distinct' on the page document (R6: the menu of 10)"
         } else {
-            "quick: R<=5 - every configuration x document x password pair with permissions=all and identifier length 16 (in memory and through writer+loader), identifier lengths 0/32 and the alternative spellings (B) with permissions=all, the permission menu of 10 on the page document, (B) one salt/IV pattern per case in rotation; R6 - every sixth (document, password pair) per configuration plus the permission menu on (page, distinct passwords): R5 differs from R6 only in the hash function and carries the full menu; deep-nesting family: representative configurations x password pair 'distinct'; file-identifier family: one configuration per key-derivation variant x every password pair (R6: two pairs); direction K: every configuration x every password pair with permissions=all (R6: two pairs), the permission menu of 10 with the pair 'distinct' on the page document (R6: all and none), the streams document where EncryptMetadata is false, alternative spellings (no /Length, StmF/StrF omitted) with the pair 'distinct'"
+            "quick: R<=5 - every configuration x document x password pair with permissions=all and identifier length 16 (in memory and through writer+loader), identifier lengths 0/32 and the alternative spellings (B) with permissions=all, the permission menu of 10 on the page document, (B) one salt/IV pattern per case in rotation; R6 - every sixth (document, password pair) per configuration plus the permission menu on (page, distinct passwords): R5 differs from R6 only in the hash function and carries the full menu; deep-nesting family: representative configurations x password pair 'distinct'; file-identifier family: one configuration per key-derivation variant x every password pair (R6: two pairs); extra-crypt-filter family: 23 configurations x 4 documents x three password pairs (R6: EncryptMetadata true, two documents, one pair); key-name family: representative and mixed-method configurations x 2 documents x four password pairs (R6: one); long-password family: 11 pairs (R6: five); direction K: every configuration x every password pair with permissions=all (R6: two pairs), the permission menu of 10 with the pair 'distinct' on the page document (R6: all and none), the streams document where EncryptMetadata is false, alternative spellings (no /Length, StmF/StrF omitted) with the pair 'distinct'"
         }),
     );
     run.exhaustive(true);
